@@ -240,6 +240,13 @@ class Ctx:
                 raise Infra("harness exited with %s" % p.returncode)
         return res
 
+    def nocrash(self, out, key):
+        """Separate crash records (harness died inside forwarder code) from results; a crash is a verdict."""
+        crash = [r for r in out if isinstance(r, dict) and r.get("crash")]
+        for c in crash:
+            self.violation(key, {"why": "process crashed in forwarder code", "stderr": c.get("stderr", "")[-3000:]})
+        return [r for r in out if not (isinstance(r, dict) and r.get("crash"))], bool(crash)
+
     # ---------------------------------------------------------------- verdicts
     def sample(self, x):
         if len(self.samples) < 3:
